@@ -327,13 +327,16 @@ fn domain_values() -> Vec<RV> {
         Int(1),
         Int(2),
         Float(1.5),
-        Float(2.5),
+        Float(-1.0),
+        Float(0.0),
+        Float(-0.0),
         Str("s".into()),
-        Str("t".into()),
+        Str("".into()),
         Bool(true),
         Bool(false),
         Tuple(vec![Int(1), Int(2)]),
-        Tuple(vec![Int(1), Int(2), Int(3)]),
+        // another length and other element types at the shared indices
+        Tuple(vec![Float(2.5), Str("x".into()), Int(3)]),
         Empty,
     ]
 }
@@ -438,8 +441,8 @@ fn names4() -> (Vec<String>, Vec<String>) {
 
 pub fn run(rep: &Report) {
     rep.set_rule(
-        "(a) exhaustive over a finite domain: every abstract state (value-or-unbound for a and b over 11 values of the \
-         six types, function set, builtin switch = 576 states), each reached by a clean and by a 'dirty' history \
+        "(a) exhaustive over a finite domain: every abstract state (value-or-unbound for a and b over 13 values of the \
+         six types incl. both zeros and tuples of different element types, function set, builtin switch = 784 states), each reached by a clean and by a 'dirty' history \
          (other types assigned, cloned, cleared first), x every operation (set_value, `x op= literal` and `x op= y` for \
          all 9 assignment operators, reads, clear_variables / clear_functions / clear, set_function, toggle, \
          clone-and-continue); after every step the return value (exact expected-type error on a type clash) and the \
